@@ -970,6 +970,10 @@ def check_C08(chk):
             replay_stage(chk, bins, v, ["replay", "--kind", "vec", "--cases", pv], "bounds: vector histories, %s" % v, hooks=True, oob_only=True)
         replay_stage(chk, bins, v, ["replay", "--kind", "mapped", "--cases", mp], "bounds: mapped views carved at record starts, outside offsets and on truncated files, %s" % v, hooks=True, oob_only=True)
         replay_stage(chk, bins, v, ["replay", "--kind", "faults", "--cases", fp], "bounds: structures loaded from bytes the library wrote, every truncation, %s" % v, hooks=True, oob_only=True)
+        one = os.path.join(chk.work, "bigload.cases.ndjson")
+        with open(one, "w") as f:
+            f.write('{"k": "bigload"}\n')
+        replay_stage(chk, bins, v, ["replay", "--kind", "bigload", "--cases", one], "bounds: loads of library-written vectors with more than 2^20 items, %s" % v, hooks=True, oob_only=True)
     # large recorded instances on the optimized build: a crash (signal) of the recorder is a violation
     for scen in ("plain", "iter"):
         tpath = os.path.join(chk.work, "mem_%s.ndjson" % scen)
